@@ -10,7 +10,7 @@ use serde_json::{json, Value};
 pub struct P;
 pub static C18: P = P;
 
-pub const WAYS: [&str; 11] = [
+pub const WAYS: [&str; 13] = [
     "class + user sheet .h{display:none}",
     "style=\"display:none\" (document CSS enabled)",
     "style=\"height:0;overflow:hidden\"",
@@ -22,6 +22,8 @@ pub const WAYS: [&str; 11] = [
     "NOT hidden: class + sheet .h .h{display:none} (no ancestor has the class)",
     "NOT hidden: class + sheet .h > .h{display:none}",
     "NOT hidden: class + sheet .h:nth-child(99){display:none}",
+    "class + descendant selector starting with a type: html .h{display:none}",
+    "class + sheet T .h{display:none} with T the element's own tag (hidden exactly when an ancestor is a T)",
 ];
 
 #[derive(Serialize, Deserialize)]
@@ -32,13 +34,18 @@ struct Case {
     way: usize,
     width: usize,
     rich: bool,
+    /// way 12: the element's tag and whether the sheet designates it
+    #[serde(default)]
+    tag: String,
+    #[serde(default)]
+    designated: bool,
 }
 
 fn mark(d: &[N], p: &[usize], way: usize) -> String {
     let mut dm = d.to_vec();
     if let N::E(_, attrs, _) = node_at_mut(&mut dm, p) {
         match way {
-            0 | 4 | 5 | 6 | 8 | 9 | 10 => attrs.push(("class".into(), "h".into())),
+            0 | 4 | 5 | 6 | 8 | 9 | 10 | 11 | 12 => attrs.push(("class".into(), "h".into())),
             1 => attrs.push(("style".into(), "display:none".into())),
             2 => attrs.push(("style".into(), "height:0;overflow:hidden".into())),
             3 => attrs.push(("id".into(), "hh".into())),
@@ -53,7 +60,7 @@ fn mark(d: &[N], p: &[usize], way: usize) -> String {
     }
 }
 fn delete(d: &[N], p: &[usize], way: usize) -> String {
-    if way >= 8 {
+    if (8..=10).contains(&way) {
         // the selector matches nothing: the expectation is the document itself
         return mark(d, p, way);
     }
@@ -68,7 +75,7 @@ fn delete(d: &[N], p: &[usize], way: usize) -> String {
         h
     }
 }
-fn cfg_for(way: usize, rich: bool) -> Cfg {
+fn cfg_for(way: usize, rich: bool, tag: &str) -> Cfg {
     let base = if rich { Cfg::rich() } else { Cfg::plain() };
     let base = base.with(Opt::DocCss);
     match way {
@@ -79,13 +86,15 @@ fn cfg_for(way: usize, rich: bool) -> Cfg {
         8 => base.with(Opt::UserCss(".h .h{display:none}".into())),
         9 => base.with(Opt::UserCss(".h > .h { display: none }".into())),
         10 => base.with(Opt::UserCss(".h:nth-child(99){display:none}".into())),
+        11 => base.with(Opt::UserCss("html .h{display:none}".into())),
+        12 => base.with(Opt::UserCss(format!("{tag} .h{{display:none}}"))),
         _ => base,
     }
 }
 
 fn check(c: &Case, tag: &str, cx: &mut Cx) {
-    let cfg = cfg_for(c.way, c.rich);
-    if c.way >= 8 {
+    let cfg = cfg_for(c.way, c.rich, &c.tag);
+    if (8..=10).contains(&c.way) || (c.way == 12 && !c.designated) {
         // a sheet whose selector matches no element must change nothing
         let plain_cfg = if c.rich { Cfg::rich() } else { Cfg::plain() }.with(Opt::DocCss);
         let a = cx.render(c.marked.as_bytes(), c.width, &cfg);
@@ -151,12 +160,14 @@ impl Scope for S {
             for &way in &self.ways {
                 let marked = mark(d, &p, way);
                 let deleted = delete(d, &p, way);
+                // way 12: an ancestor with the element's own tag
+                let designated = (1..p.len()).any(|k| tag_of(node_at(d, &p[..k])) == tag);
                 for &width in &self.widths {
                     for rich in [false, true] {
                         if rich && way != 0 {
                             continue;
                         }
-                        check(&Case { marked: marked.clone(), deleted: deleted.clone(), original: original.clone(), way, width, rich }, &tag, cx);
+                        check(&Case { marked: marked.clone(), deleted: deleted.clone(), original: original.clone(), way, width, rich, tag: tag.clone(), designated }, &tag, cx);
                     }
                 }
             }
@@ -177,7 +188,7 @@ impl Prop for P {
     fn build(&self, tier: Tier) -> Box<dyn Scope> {
         let docs = block_docs(tier.pick(2, 3), G { tables: true, pre: true, valid_only: true });
         let docs: Vec<Vec<N>> = if tier == Tier::Thorough { docs.into_iter().step_by(2).collect() } else { docs };
-        Box::new(S { docs, widths: tier.pick(vec![1, 2, 3, 4, 5, 6, 8, 10, 14, 20], (1..=24).chain([30, 40, 60, 100]).collect()), ways: tier.pick(vec![0, 1, 2, 3, 4, 8, 9], vec![0, 1, 2, 3, 4, 5, 6, 7, 8, 9, 10]) })
+        Box::new(S { docs, widths: tier.pick(vec![1, 2, 3, 4, 5, 6, 8, 10, 14, 20], (1..=24).chain([30, 40, 60, 100]).collect()), ways: tier.pick(vec![0, 1, 2, 3, 4, 8, 9, 11, 12], vec![0, 1, 2, 3, 4, 5, 6, 7, 8, 9, 10, 11, 12]) })
     }
     fn replay(&self, case: &Value, cx: &mut Cx) {
         let c: Case = serde_json::from_value(case.clone()).expect("C18 case");
